@@ -31,6 +31,10 @@ func main() {
 		logger.Fatal().Err(err).Msg("failed to create load balancer")
 	}
 
+	// Log startup information. This reads the configuration without locks, so it has to happen
+	// before the admin API is served: a strategy switch rewrites cfg.LoadBalancer.Strategy
+	logStartupInfo(cfg)
+
 	// Setup ancillary servers
 	setupMetricsServer(cfg, lb)
 	setupAdminAPIServer(cfg, lb)
@@ -62,9 +66,6 @@ func main() {
 	// Start HTTP server
 	serverErrors := make(chan error, 1)
 	startHTTPServer(server, cfg, serverErrors)
-
-	// Log startup information
-	logStartupInfo(cfg)
 
 	// Wait for shutdown signal or server error
 	select {
